@@ -136,6 +136,16 @@ func (t *c12RT) RoundTrip(req *http.Request) (*http.Response, error) {
 
 type c12Ctx struct{}
 
+// c12Offset draws a fault offset as a symbolic integer in [-1, n]: -1 = the
+// stream never fails; otherwise the read at that offset fails (n = instead of
+// EOF). Which reads succeed is then decided by the solver on every comparison
+// the stream makes, not by enumerating offsets.
+func c12Offset(name string, n int) int {
+	v := int(zv.Int32(name))
+	zv.Assume(v >= -1 && v <= n)
+	return v
+}
+
 // VerifC12Submit: every fault placement around one exchange.
 func VerifC12Submit() {
 	zv.Stub("(*net/http.Client).Do", c13Do)
@@ -147,13 +157,13 @@ func VerifC12Submit() {
 	switch payload {
 	case 1, 2:
 		n := zv.Choose("file-size", zv.Param("filesize", 2)+1)
-		file = &c12Src{name: "dir/f.bin", data: make([]byte, n), failAt: zv.Choose("file-fails-at", n+2) - 1}
+		file = &c12Src{name: "dir/f.bin", data: make([]byte, n), failAt: c12Offset("file-fails-at", n)}
 		for i := range file.data {
 			file.data[i] = 'a' + byte(i)
 		}
 	case 3:
 		n := zv.Choose("stream-size", zv.Param("filesize", 2)+1)
-		stream = &c12Src{name: "s", data: make([]byte, n), failAt: zv.Choose("stream-fails-at", n+2) - 1}
+		stream = &c12Src{name: "s", data: make([]byte, n), failAt: c12Offset("stream-fails-at", n)}
 	}
 	writerFails := zv.Choose("writer-fails", 2) == 1
 	// 0 no auth writer, 1 succeeds, 2 succeeds after looking at the body, 3 fails, 4 fails after looking at the body
@@ -248,7 +258,7 @@ func VerifC12Submit() {
 		tr.mode = zv.Choose("transport", 3)
 		if tr.mode == 2 {
 			n := zv.Choose("response-size", zv.Param("respsize", 2)+1)
-			tr.body = &c12RespBody{n: n, failAt: zv.Choose("response-fails-at", n+2) - 1, eofEarly: zv.Choose("eof-with-last-byte", 2) == 1}
+			tr.body = &c12RespBody{n: n, failAt: c12Offset("response-fails-at", n), eofEarly: zv.Bool("eof-with-last-byte")}
 		}
 	}
 
@@ -315,7 +325,7 @@ func VerifC12Submit() {
 // the body wrapper installed by connection reuse.
 func VerifC12Drain() {
 	n := zv.Choose("size", zv.Param("respsize", 2)+1)
-	under := &c12RespBody{n: n, failAt: zv.Choose("fails-at", n+2) - 1, eofEarly: zv.Choose("eof-with-last-byte", 2) == 1}
+	under := &c12RespBody{n: n, failAt: c12Offset("fails-at", n), eofEarly: zv.Bool("eof-with-last-byte")}
 	tr := KeepAliveTransport(&c12RT{mode: 2, body: under})
 	resp, err := tr.RoundTrip(&http.Request{Method: "GET", Header: http.Header{}})
 	if err != nil || resp == nil {
